@@ -26,7 +26,7 @@ ASSUMPTIONS = [
 TOL_ANGLE = 1e-14  # property: "about 1e-15 rad"; an arccos of the dot product loses ~1e-8
 EPS = si.EPS64
 LEN_UNITS = ['mm', 'cm', 'm', 'km', 'angstrom']
-ANGLE_CLASSES = ['0', '1e-12', '1e-9', '1e-6', 'pi/2', 'pi-1e-9', 'pi-1e-12', 'pi', 'random']
+ANGLE_CLASSES = ['0', '1e-12', '1e-9', '1e-6', 'pi/2', 'pi-1e-9', 'pi-1e-12', 'pi', 'random', 'axis']
 
 
 # ------------------------------------------------------------- monitors ---
@@ -205,11 +205,20 @@ def gen_pairs(rng, n, ctx, cls=None):
             ang[i] = si.PI / 2 + si.LD(rng.uniform(-1e-12, 1e-12))
         elif name.startswith('pi-'):
             ang[i] = si.PI - si.LD(float(name[3:])) * si.LD(rng.uniform(0.5, 1.0))
-        elif name == 'random':
+        elif name in ('random', 'axis'):
             ang[i] = si.LD(rng.uniform(0, np.pi))
         else:
             ang[i] = si.LD(float(name)) * si.LD(rng.uniform(0.5, 1.0))
         ctx.hit('angle:' + name)
+    # 'axis': the incident beam lies exactly along a coordinate axis (either sign, exact zeros), as in the
+    # usual lab frames; the scattered beam is generic or axis-aligned too
+    for i, c in enumerate(classes):
+        if ANGLE_CLASSES[c] == 'axis':
+            e = np.zeros(3)
+            e[rng.integers(0, 3)] = 1.0 if rng.random() < 0.5 else -1.0
+            a[i] = e * float(np.linalg.norm(a[i]))
+    perp = np.where((np.array([ANGLE_CLASSES[c] for c in classes]) == 'axis')[:, None],
+                    geom.perpendicular_unit(rng, a), perp)
     b_dir = geom.rotate_towards(a, perp, ang)
     bn = 10.0 ** rng.uniform(-6, 6, size=(n, 1))
     b = (b_dir * bn).astype(np.float64)
@@ -218,6 +227,10 @@ def gen_pairs(rng, n, ctx, cls=None):
             b[i] = a[i] * 2.0 ** int(rng.integers(-8, 9))
         elif ANGLE_CLASSES[c] == 'pi':
             b[i] = -a[i] * 2.0 ** int(rng.integers(-8, 9))
+        elif ANGLE_CLASSES[c] == 'axis' and rng.random() < 0.3:
+            e = np.zeros(3)
+            e[rng.integers(0, 3)] = 1.0 if rng.random() < 0.5 else -1.0
+            b[i] = e * float(np.linalg.norm(b[i]))
     return a, b, [ANGLE_CLASSES[c] for c in classes]
 
 
@@ -273,6 +286,12 @@ def positions_case(rng, ctx, scn, K, mon):
     # common sample at a random place; source = sample - a0 ; detectors = sample + b_i
     a0 = a[0]
     sample = rng.normal(size=3) * 10.0 ** rng.uniform(-3, 3)
+    if rng.random() < 0.3:
+        sample = np.zeros(3)
+        e = np.zeros(3)
+        e[rng.integers(0, 3)] = 1.0 if rng.random() < 0.5 else -1.0
+        a0 = e * float(np.linalg.norm(a0))
+        ctx.hit('axis-aligned beamline, sample at origin')
     source = sample - a0
     pos = sample[None, :] + b
     # what the code will see are the rounded positions: recompute beams from them
@@ -354,7 +373,12 @@ def direct_case(rng, ctx, K):
     else:
         va = vec(a[0], u1) if rng.random() < 0.5 else vec(a, u1)  # common incident beam or per pixel
         vb = vec(b, u2)
-    shape = 'scalar' if scalar else ('per_pixel' if va.ndim else 'scalar_incident')
+    if not scalar and rng.random() < 0.2:
+        # per-pixel incident beam with one common scattered beam (symmetry in the two beams includes shapes)
+        va, vb = vec(a, u1), vec(b[0], u2)
+        ctx.hit('per-pixel incident, scalar scattered')
+    shape = 'scalar' if scalar else ('per_pixel' if va.ndim and vb.ndim else
+                                     'scalar_incident' if vb.ndim else 'scalar_scattered')
     if fn == 0:
         K.two_theta(incident_beam=va, scattered_beam=vb)
         name = 'two_theta'
@@ -363,6 +387,8 @@ def direct_case(rng, ctx, K):
         K.L2(scattered_beam=vb)
         name = 'L1L2'
     elif fn == 2:
+        if vb.ndim == 0:
+            vb = vec(b, u2)
         K.straight_incident_beam(source_position=va, sample_position=vec(b[0] if va.ndim == 0 else b, u1))
         K.straight_scattered_beam(position=vb, sample_position=vec(a[0], u2))
         name = 'beams'
@@ -396,7 +422,7 @@ def requirements(tier):
                           'total_beam_length', 'total_straight_beam_length_no_scatter', 'two_theta',
                           'accessor.two_theta', 'accessor.Ltotal_noscatter', 'invariance.rotation',
                           'invariance.translation', 'invariance.swap')}
-    return {'events': ev, 'forced': ['angle:' + c for c in ANGLE_CLASSES]}
+    return {'events': ev, 'forced': ['angle:' + c for c in ANGLE_CLASSES] + ['axis-aligned beamline, sample at origin', 'per-pixel incident, scalar scattered']}
 
 
 def run(shard, ctx):
